@@ -932,7 +932,15 @@ async def _serve_frames(w, frames, mode, hold_lock, jump=0.0):
             await asyncio.sleep(0)
     if hold_lock:
         await w.db.__aexit__(None, None, None)
-    await asyncio.wait_for(serve, TIMEOUT)
+    w.serve_error = None
+    try:
+        await asyncio.wait_for(serve, TIMEOUT)
+    except asyncio.TimeoutError:
+        raise
+    except BaseException as e:  # noqa: BLE001 - serve() raising is part of what is observed, the dump decides
+        if isinstance(e, asyncio.CancelledError) and not serve.cancelled():
+            raise
+        w.serve_error = ", ".join(sorted(f"{type(x).__name__}: {x}" for x in getattr(e, "exceptions", [e])))[:200]
     with contextlib.suppress(OSError):
         b.close()
     return noticed, inflight
@@ -955,6 +963,13 @@ async def _disconnect_cases(ctx, ncase, fails):
         hold = rng.random() < 0.7
         jump = CLOCK_JUMP if hold and rng.random() < 0.75 else 0.0
         frames = [_frame(i + 1, r) for i, (_, r) in enumerate(reqs)]
+        # the stream may end INSIDE a following message: 1..15 bytes of its header, or the header and a part of its
+        # body; the complete requests before it were received in full all the same
+        tail = b""
+        if rng.random() < 0.5:
+            nxt = _frame(len(reqs) + 1, {"name": "hold_dispatch", "args": [2]})
+            tail = nxt[:rng.choice([rng.randint(1, 15), 16, rng.randint(17, len(nxt) - 1)])]
+            frames = [*frames, tail]
         async with World() as w:
             noticed, inflight = await _serve_frames(w, frames, mode, hold, jump)
             got = w.dump(True)
@@ -970,8 +985,13 @@ async def _disconnect_cases(ctx, ncase, fails):
                 ctx.count("D:handler_waited_an_hour_for_the_lock_after_peer_gone")
         if got != ref:
             what = "absent" if got == base else "partial"
-            waited = False
-            if jump:
+            waited = truncated = False
+            if tail:
+                # does it take the truncated message behind the requests? once more without it
+                async with World() as w3:
+                    await _serve_frames(w3, frames[:-1], mode, hold, jump)
+                    truncated = w3.dump(True) == ref
+            if jump and not truncated:
                 # does it take the long wait? the same case once more without the clock jump
                 async with World() as w3:
                     await _serve_frames(w3, frames, mode, hold, 0.0)
@@ -979,6 +999,8 @@ async def _disconnect_cases(ctx, ncase, fails):
             fails.append(("disconnect", "+".join(k for k, _ in reqs),
                           {"requests": [r for _, r in reqs], "mode": mode, "handler_blocked_on_lock": hold,
                            "clock_jump_while_blocked": jump, "only_after_long_wait": waited,
+                           "truncated_next_message": tail.hex(), "only_with_truncated_next_message": truncated,
+                           "serve_raised": w.serve_error,
                            "effect": what, "replies_when_connected": replies, "diff": dump_diff(ref, got)}))
 
 
@@ -1215,11 +1237,16 @@ def _report(ctx, fails):
             name = "oracle-I:rolled-back-attempt-leaves-nothing-behind"
         else:
             sig = (f"disconnect:request-{wit['effect']}-after-peer-gone" + (f":{sc['kind']}" if sc else "")
-                   + (":only-when-the-handler-waits-long-for-the-lock" if wit.get("only_after_long_wait") else ""))
+                   + (":only-when-the-handler-waits-long-for-the-lock" if wit.get("only_after_long_wait") else "")
+                   + (":only-when-the-stream-ends-inside-the-next-message"
+                      if wit.get("only_with_truncated_next_message") else ""))
             detail = (f"frames {wit['requests']}{size} were received in full, then the peer went away "
-                      f"({wit['mode']})"
+                      f"({wit['mode']}"
+                      + (f", after {len(wit['truncated_next_message']) // 2} bytes of a further message"
+                         if wit.get("truncated_next_message") else "") + ")"
                       + (f" and the handler waited {wit['clock_jump_while_blocked']:.0f} s (loop clock) for the database "
                          "lock" if wit.get("clock_jump_while_blocked") else "")
+                      + (f"; serve() raised {wit['serve_raised']}" if wit.get("serve_raised") else "")
                       + f"; effect is {wit['effect']}: {json.dumps(wit['diff'])[:700]}")
             name = "oracle-D:received-in-full-applied-in-full"
         if sig in seen:
@@ -1306,6 +1333,8 @@ def replay(ctx, obj):
 
         async def one_disc():
             frames = [_frame(i + 1, r) for i, r in enumerate(w["requests"])]
+            if w.get("truncated_next_message"):
+                frames.append(bytes.fromhex(w["truncated_next_message"]))
             async with World() as wd:
                 await _serve_frames(wd, frames, w["mode"], w["handler_blocked_on_lock"],
                                     w.get("clock_jump_while_blocked", 0.0))
